@@ -79,6 +79,13 @@ TheSchema == [
   Account |-> << Alt("account", <<1>>, << F("addr", AddrInt), F("storage_stat", Named("StorageInfo")), F("storage", Named("AccountStorage")) >>),
                  Alt("account_none", <<0>>, <<>>) >>,
   HashUpdate |-> << Alt("update_hashes", Tag8(114), << F("old_hash", Bits(256)), F("new_hash", Bits(256)) >>) >>,
+  \* ---- stand-alone wrappers of the library
+  CurrencyCollection |-> << Alt("currencies", <<>>, << F("cc", CC) >>) >>,
+  WalletV3Data |-> << Alt("wallet_v3_data", <<>>, << F("seqno", U(32)), F("wallet_id", U(32)), F("public_key", Bits(256)) >>) >>,
+  WalletV4Data |-> << Alt("wallet_v4_data", <<>>, << F("seqno", U(32)), F("wallet_id", U(32)), F("public_key", Bits(256)), F("plugins", Maybe(RefCell)) >>) >>,
+  NftItemData |-> << Alt("nft_item_data", <<>>, << F("index", U(64)), F("collection_address", AddrInt), F("owner_address", AddrInt), F("content", RefCell) >>) >>,
+  NftItemSaleFees |-> << Alt("nft_item_sale_fees", <<>>, << F("marketplace_fee_address", AddrInt), F("marketplace_fee", Grams),
+                                                           F("royalty_address", AddrInt), F("royalty_amount", Grams) >>) >>,
   \* ---- envelopes
   MsgEnvelope |-> << Alt("msg_envelope", <<0, 1, 0, 0>>, << F("cur_addr", Named("IntermediateAddress")), F("next_addr", Named("IntermediateAddress")),
                                                           F("fwd_fee_remaining", Grams), F("msg", Ref(Named("Message"))) >>) >>,
